@@ -184,3 +184,18 @@ class hand_res(ContractBase):
                 'sets': And(todo(c.cur, n)[t] == todo(c.entry, n)[t], doing(c.cur, n)[t] == doing(c.entry, n)[t])}
     loops = {'while 0 < _busy.count(done)': Loop(inv=_inv_busy, modifies=['dawgie.pl.farm._busy', 'dawgie.pl.farm._time']),
              'for idle in ': Loop(inv=_inv_prune, modifies=[QUE])}
+
+
+def _translate_replay(model, vc):
+    """the reply flag from the solver's model, through the real Hand._translate"""
+    import dawgie.pl.farm as farm
+    from dawgie.pl.jobinfo import State
+    OB = Opt(BOOL)
+    s = vc.inputs['state']
+    flag = None if z3.is_true(model.eval(OB.is_none(s), model_completion=True)) else z3.is_true(model.eval(OB.val(s), model_completion=True))
+    got = farm.Hand._translate(flag)
+    want = State.invalid if flag is None else (State.success if flag else State.failure)
+    return {'reproduced': got is not want, 'input': {'state': flag}, 'observed': str(got), 'expected': str(want)}
+
+
+translate.replay = staticmethod(_translate_replay)
